@@ -135,7 +135,7 @@ pub fn scan_fn(f: &str, a: &[&str]) -> Option<String> {
         ("honest", 3) => {
             let s = set_fns(a[0])?; let seed = unhex(a[1])?; let msg = unhex(a[2])?;
             let r = panic::catch_unwind(AssertUnwindSafe(|| {
-                let mut pk = vec![0u8; s.pk]; let mut sk = vec![0u8; s.sk]; let mut sig = vec![0u8; s.sig];
+                let mut pk = vec![0xA5u8; s.pk]; let mut sk = vec![0xA5u8; s.sk]; let mut sig = vec![0xA5u8; s.sig];
                 (s.keypair)(&mut pk, &mut sk, Some(&seed));
                 (s.sign)(&mut sig, &msg, &sk, false);
                 (s.verify)(&sig, &msg, &pk)
